@@ -14,6 +14,14 @@ def s_run(ctx, shape, oracle, opts=None):
     if opts.get("ta"):
         kw["ta"] = opts["_ta"] = ctx.real("ta")
     try:
+        # earlier analyses of the SAME operating point (same iterate symbols) under other settings: whatever they leave behind - in
+        # the System, in the component objects, in class- or module-level state - must not show in the result examined below
+        for n_, pr in enumerate(opts.get("prior", ())):
+            pkw = dict(pr)
+            meth = pkw.pop("method", "solve")
+            if pkw.get("ta") == "fresh":
+                pkw["ta"] = ctx.real("ta_prior%d" % n_)
+            sysh.run_solve(ctx, sysobj, shape, method=meth, **pkw)
         df = sysh.run_solve(ctx, sysobj, shape, **kw)
     except sysh.Unstable:
         ctx.note("unstable-raised")
